@@ -83,7 +83,7 @@ def check(ctx):
         _from_table_path(ctx, it2, fp_, qf, ff, q, qa, pcol, socol, tag)
     from .common import check_interp_options
 
-    check_interp_options(ctx, "C15-d", ["bluebonnet.flow.flowproperties"], 8)
+    check_interp_options(ctx, "C15-d", ["bluebonnet.flow.flowproperties"], 5)
     ctx.floor("C15", len(ctx.obligs), 10, "multiphase pseudopressure obligations")
 
 
